@@ -26,10 +26,10 @@ theorem C06_intermediate_2_31_echo (T : Nat) (st : RState) (i : In) (b : Blk)
     (step T st i).2.resp = errResp CONTINUE (some b) ∧ (step T st i).2.seen = none ∧
     (step T st i).1.cache = cacheAt T st i := by
   have hf : (feedAndTake T i.now (spoolAt T st i) i.req).2 = .cont b := by
-    rcases hacc with h0 | ⟨asm, hl, hc, hs, hst⟩
-    · rw [feed_first hb h0]; simp [hm]
+    rcases hacc with ⟨h0, hs0⟩ | ⟨asm, hl, hc, hs, hst⟩
+    · rw [feed_first hb h0 hs0]; simp [hm]
     · by_cases h0 : b.num = 0
-      · rw [feed_first hb h0]; simp [hm]
+      · rw [feed_first hb h0 hs]; simp [hm]
       · obtain ⟨self', hok⟩ : ∃ s, appendRequestBlock asm i.req b = .ok s :=
           ⟨_, append_ok_iff.mpr ⟨hc, hs, hst, rfl⟩⟩
         rw [feed_append_ok hb h0 hl hok]; simp [hm]
@@ -81,20 +81,32 @@ theorem C06_size_contradiction_4_00 (T : Nat) (st : RState) (i : In) (b : Blk) (
     (step T st i).2.resp = errResp BAD_REQUEST none ∧ (step T st i).2.seen = none ∧
     (step T st i).1.spool.items = (spoolAt T st i).items ∧
     (step T st i).1.cache = cacheAt T st i := by
-  have hs : sizeOk b i.req.payload.length = false := by
-    rcases hsize with ⟨h1, h2, h3⟩ | ⟨h1, h2, h3⟩
-    · simp only [sizeOk, h1, ↓reduceIte, Bool.or_eq_false_iff, beq_eq_false_iff_ne,
-        ne_eq, Bool.and_eq_false_imp, beq_iff_eq]
-      exact ⟨h2, fun h7 h => h3 ⟨h7, h⟩⟩
-    · simp only [sizeOk, h1, Bool.false_eq_true, ↓reduceIte, Bool.or_eq_false_iff,
-        beq_eq_false_iff_ne, ne_eq, decide_eq_false_iff_not]
-      exact ⟨h2, by omega⟩
+  have hs : sizeOk b i.req.payload.length = false := sizeOk_false_of_contradiction hsize
   have he : appendRequestBlock asm i.req b = .error .badRequest :=
     append_badRequest_iff.mpr ⟨hc, hs⟩
   have hf := feed_append_error (T := T) (now := i.now) hb h0 hl he
   have hf2 : (feedAndTake T i.now (spoolAt T st i) i.req).2 = .badRequest := by rw [hf]; rfl
   rw [step_badRequest ha hf2, hf]
   exact ⟨rfl, rfl, accessed_items _ _ _ _, rfl⟩
+
+/-- **C06 (4.00, block 0).** Block 0 is held to its block size like every later block: when its
+payload length contradicts its size (same two cases as in `C06_size_contradiction_4_00`) it is
+answered 4.00 Bad Request whatever the spool holds; the handler is not invoked, and the spool is
+exactly as the request found it — no assembly is started, an assembly already stored under the
+block key is neither discarded nor refreshed — and the rendering cache is not touched. -/
+theorem C06_block0_size_contradiction_4_00 (T : Nat) (st : RState) (i : In) (b : Blk)
+    (ha : i.assemble = true) (hb : i.req.block1 = some b) (h0 : b.num = 0)
+    (hsize : (b.more = true ∧ i.req.payload.length ≠ b.size ∧
+                ¬ (b.szx = 7 ∧ i.req.payload.length % b.size = 0)) ∨
+             (b.more = false ∧ b.szx ≠ 7 ∧ b.size < i.req.payload.length)) :
+    (step T st i).2.resp = errResp BAD_REQUEST none ∧ (step T st i).2.seen = none ∧
+    (step T st i).1.spool = spoolAt T st i ∧
+    (step T st i).1.cache = cacheAt T st i := by
+  have hs : sizeOk b i.req.payload.length = false := sizeOk_false_of_contradiction hsize
+  have hf := feed_first_bad (T := T) (now := i.now) (sp := spoolAt T st i) hb h0 hs
+  have hf2 : (feedAndTake T i.now (spoolAt T st i) i.req).2 = .badRequest := by rw [hf]
+  rw [step_badRequest ha hf2, hf]
+  exact ⟨rfl, rfl, rfl, rfl⟩
 
 /-- the size check used by `Accepted` and `Assembly`, spelled out: it passes exactly when the
 length does not contradict the block size in the sense of `C06_size_contradiction_4_00` -/
@@ -114,7 +126,16 @@ theorem C06_not_accepted_is_refused (T : Nat) (st : RState) (i : In) (b : Blk)
     (step T st i).2.seen = none ∧
     (step T st i).1.spool.items = (spoolAt T st i).items ∧
     (step T st i).1.cache = cacheAt T st i := by
-  have h0 : b.num ≠ 0 := fun h => hna (Or.inl h)
+  by_cases h0 : b.num = 0
+  · -- block 0 that is not accepted: its length contradicts its size
+    have hs : sizeOk b i.req.payload.length = false := by
+      cases h : sizeOk b i.req.payload.length with
+      | false => rfl
+      | true => exact absurd (Or.inl ⟨h0, h⟩) hna
+    have hf := feed_first_bad (T := T) (now := i.now) (sp := spoolAt T st i) hb h0 hs
+    have hf2 : (feedAndTake T i.now (spoolAt T st i) i.req).2 = .badRequest := by rw [hf]
+    rw [step_badRequest ha hf2, hf]
+    exact ⟨Or.inr rfl, rfl, rfl, rfl⟩
   cases hl : alookup (blockKey i.req) (spoolAt T st i).items with
   | none =>
     have := C06_bad_continuation_4_08 T st i b ha hb h0 (Or.inl hl)
@@ -137,27 +158,30 @@ theorem C06_not_accepted_is_refused (T : Nat) (st : RState) (i : In) (b : Blk)
         exact ⟨Or.inr rfl, rfl, accessed_items _ _ _ _, rfl⟩
 
 /-- **C06 (final block).** An accepted block without the more flag reaches the second stage as
-the stored request with the block's payload appended (its own payload for block 0), under the
+the stored request with the block's payload appended (its own payload for block 0), carrying the
+Block1 and the Block2 option of this final block (no Block2 option if it has none), under the
 same block key when the stored request was filed under its own key; nothing stays in the spool
 under that block key (the transfer has ended). -/
 theorem C06_accepted_final_passes (T : Nat) (st : RState) (i : In) (b : Blk)
     (ha : i.assemble = true) (hb : i.req.block1 = some b) (hm : b.more = false)
     (hacc : Accepted T st i b) :
-    ∃ m, Passes T st i m ∧ m.block1 = some b ∧
+    ∃ m, Passes T st i m ∧ m.block1 = some b ∧ m.block2 = i.req.block2 ∧
       alookup (blockKey i.req) (step T st i).1.spool.items = none ∧
       ((b.num = 0 ∧ m = i.req) ∨
        (b.num ≠ 0 ∧ ∃ old, alookup (blockKey i.req) (spoolAt T st i).items = some old ∧
           m.payload = old.payload ++ i.req.payload ∧ blockKey m = blockKey old)) := by
   by_cases h0 : b.num = 0
-  · have hp : Passes T st i i.req := ⟨ha, by rw [feed_first hb h0]; simp [hm]⟩
-    exact ⟨i.req, hp, hb, passes_block1_absent hp hb, Or.inl ⟨h0, rfl⟩⟩
+  · have hs0 : sizeOk b i.req.payload.length = true := by
+      rcases hacc with ⟨_, h⟩ | ⟨_, _, _, h, _⟩ <;> exact h
+    have hp : Passes T st i i.req := ⟨ha, by rw [feed_first hb h0 hs0]; simp [hm]⟩
+    exact ⟨i.req, hp, hb, rfl, passes_block1_absent hp hb, Or.inl ⟨h0, rfl⟩⟩
   · rcases hacc with h | ⟨old, hl, hc, hs, hst⟩
-    · exact absurd h h0
+    · exact absurd h.1 h0
     · obtain ⟨self', hok⟩ : ∃ s, appendRequestBlock old i.req b = .ok s :=
         ⟨_, append_ok_iff.mpr ⟨hc, hs, hst, rfl⟩⟩
       obtain ⟨_, _, _, e⟩ := append_ok_iff.mp hok
       have hp : Passes T st i self' := ⟨ha, by rw [feed_append_ok hb h0 hl hok]; simp [hm]⟩
-      exact ⟨self', hp, by rw [e], passes_block1_absent hp hb,
+      exact ⟨self', hp, by rw [e], by rw [e]; simp [hm], passes_block1_absent hp hb,
         Or.inr ⟨h0, old, hl, by rw [e], blockKey_append hok⟩⟩
 
 /-- **C06 (no 5.xx from the machinery).** Whatever the state and the request, the block-wise
@@ -360,6 +384,79 @@ theorem C06_handler_sees_concatenation (T : Nat) (pre : List In) (cur : In) (m :
   rw [hr]
   exact (feed_spoolInv (T := T) (now := cur.now) cur.req hadv).2 m hf
 
+/-- **C06 (blocks 0..n, nothing skipped).** Since block 0 passes the size check like every later
+block, byte offsets are block numbers: when the handler is invoked with a body reassembled from
+Block1 blocks (`blocks`, as in `C06_handler_sees_concatenation`) and these blocks all use one size
+exponent `s ≤ 6`, then the block at position `i` of `blocks` carries block number `i` — the body is
+the concatenation of blocks 0, 1, …, n, each of them received, none skipped or used twice — and all
+blocks before the last are exactly `2^(s+4)` bytes long. -/
+theorem C06_handler_sees_blocks_0_to_n (T : Nat) (pre : List In) (cur : In) (m : Msg) (b : Blk)
+    (ha : cur.assemble = true) (hb : cur.req.block1 = some b)
+    (hseen : (step T (stateAfter T RState.init pre) cur).2.seen = some m) :
+    ∃ blocks, Assembly (blockKey cur.req) blocks m.payload ∧
+      blocks.Sublist (received (pre ++ [cur])) ∧ blocks.getLast? = some cur.req ∧
+      ∀ s, s ≤ 6 → UniformSzx s blocks →
+        (∀ (i : Nat) (x : Msg), blocks[i]? = some x → ∃ bx : Blk, x.block1 = some bx ∧ bx.num = i) ∧
+        (∀ x ∈ blocks.dropLast, x.payload.length = 2 ^ (s + 4)) := by
+  rcases C06_handler_sees_concatenation T pre cur m ha hseen with ⟨e, _⟩ | ⟨_, blocks, hasm, hsub, hlast, hall⟩
+  · rw [hb] at e; cases e
+  · refine ⟨blocks, hasm, hsub, hlast, fun s hs hu => ⟨hasm.num_eq_index hs hu hall, ?_⟩⟩
+    intro x hx
+    obtain ⟨hk, hsome⟩ := (hasm.keys) x (List.dropLast_subset _ hx)
+    obtain ⟨bx, hbx⟩ := Option.isSome_iff_exists.mp hsome
+    have hmore := hall x hx bx hbx
+    have hsx : bx.szx = s := hu x (List.dropLast_subset _ hx) bx hbx
+    have := sizeOk_more_regular hmore (by omega) (hasm.sizes x (List.dropLast_subset _ hx) bx hbx)
+    rw [this, hsx]
+
+/-- the numbering lemma by itself, for any assembly (in the spool or handed out) -/
+theorem C06_assembly_numbering (k : Key) (blocks : List Msg) (body : Bytes) (s : Nat)
+    (h : Assembly k blocks body) (hs : s ≤ 6) (hu : UniformSzx s blocks)
+    (hm : AllMore blocks.dropLast) :
+    ∀ (i : Nat) (x : Msg), blocks[i]? = some x → ∃ bx : Blk, x.block1 = some bx ∧ bx.num = i :=
+  h.num_eq_index hs hu hm
+
+/-- **C06 (the answered request's own block options decide).** Whatever reaches the second stage —
+a request without Block1, a single final block 0, or a body reassembled from several blocks —
+carries the Block1 and the Block2 option of the request that is being answered (the final block),
+a missing Block2 option included: a Block2 option sent along with an earlier block of the body
+neither selects the block of the response nor keeps the handler from being invoked. -/
+theorem C06_second_stage_has_own_block_options (T : Nat) (st : RState) (i : In) (m : Msg)
+    (hp : Passes T st i m) :
+    m.block1 = i.req.block1 ∧ m.block2 = i.req.block2 ∧ isFresh m = isFresh i.req := by
+  obtain ⟨h1, h2⟩ := feed_pass_options hp.2
+  exact ⟨h1, h2, by simp [isFresh, h2]⟩
+
+/-- … hence a completed upload whose final block asks for the beginning of the response (no Block2
+option, or block number 0) always invokes the handler with the new body, whatever Block2 option
+block 0 carried and whatever rendering is kept from an older request -/
+theorem C06_completed_upload_reaches_handler (T : Nat) (st : RState) (i : In) (b : Blk)
+    (ha : i.assemble = true) (hb : i.req.block1 = some b) (hm : b.more = false)
+    (hacc : Accepted T st i b) (hfresh : isFresh i.req = true) :
+    ∃ m, (step T st i).2.seen = some m ∧ m.block1 = some b ∧ m.block2 = i.req.block2 := by
+  obtain ⟨m, hp, h1, h2, _, _⟩ := C06_accepted_final_passes T st i b ha hb hm hacc
+  have hf : isFresh m = true := by
+    rw [(C06_second_stage_has_own_block_options T st i m hp).2.2]; exact hfresh
+  refine ⟨m, ?_, h1, h2⟩
+  rw [step_pass hp]
+  cases hr : i.render m with
+  | ok a => rw [extract_fresh hf hr]; split <;> rfl
+  | error code => rw [extract_fresh_raised hf hr]; rfl
+
+/-- **C06 (observable resources).** `ObservableResource._render_to_pipe` sets up an observation
+only for a request with Observe: 0 that carries no Block1 option and asks for the beginning of the
+representation; every block of a request body and every request for a later block of a response
+takes the way of `Resource._render_to_pipe`.  (On both ways the response is produced by
+`_render_blockwise`, the function `step` models — so all theorems of this file hold for observable
+resources as well.) -/
+theorem C06_observable_entry (req : Msg) :
+    (obsEntry req = .observe ↔
+      observeZero req = true ∧ req.block1 = none ∧ isFresh req = true) ∧
+    (req.block1.isSome = true → obsEntry req = .plain) ∧
+    (isFresh req = false → obsEntry req = .plain) := by
+  unfold obsEntry
+  cases ho : observeZero req <;> cases hb : req.block1 <;> cases hf : isFresh req <;> simp
+
 /-- **C06 (a delivered assembly is gone).** Whatever the state: when a request carrying Block1
 comes out of the first stage (an accepted final block — the only way a reassembled body can reach
 the handler), nothing is left in the spool under its block key. -/
@@ -372,8 +469,9 @@ theorem C06_delivered_assembly_is_gone (T : Nat) (st : RState) (i : In) (m : Msg
   | true =>
     exfalso
     obtain ⟨_, hf⟩ := hp
-    rcases feed_cases T i.now (spoolAt T st i) i.req b hb with ⟨_, e⟩ | ⟨_, _, e⟩ |
+    rcases feed_cases T i.now (spoolAt T st i) i.req b hb with ⟨_, _, e⟩ | ⟨_, _, e⟩ | ⟨_, _, e⟩ |
         ⟨_, self, er, _, _, e⟩ | ⟨_, self, self', _, _, e⟩
+    · rw [e] at hf; simp at hf
     · rw [e] at hf; simp [hm] at hf
     · rw [e] at hf; simp at hf
     · rw [e] at hf; cases er <;> simp [feedOfErr] at hf
@@ -597,7 +695,7 @@ theorem C06_assembly_lifetime (T : Nat) (hT : 0 < T) (pre : List In) (cur : In) 
   cases hm : b.more with
   | false =>
     refine ⟨fun h => (by cases h), fun _ => ?_⟩
-    obtain ⟨m, hp, _, hgone, _⟩ := C06_accepted_final_passes T _ cur b ha hb hm hacc
+    obtain ⟨m, hp, _, _, hgone, _⟩ := C06_accepted_final_passes T _ cur b ha hb hm hacc
     exact spool_absent_aux (T := T) rest (step_rinv hr cur (Nat.le_refl _)) hgone o4 hne t'
   | true =>
     obtain ⟨D, asm, h1, h2, hinv, hl⟩ := accepted_linv hT hr cur (Nat.le_refl _) ha hb hm hacc
@@ -729,7 +827,7 @@ theorem C06_accepted_block_extends_assembly (T : Nat) (st : RState) (cur : In) (
           asm.payload = old.payload ++ cur.req.payload)) := by
   cases hm : b.more with
   | false =>
-    obtain ⟨m, hp, _, hgone, hform⟩ := C06_accepted_final_passes T st cur b ha hb hm hacc
+    obtain ⟨m, hp, _, _, hgone, hform⟩ := C06_accepted_final_passes T st cur b ha hb hm hacc
     refine ⟨m, by simpa using ⟨hp, hgone⟩, ?_⟩
     rcases hform with ⟨h0, e⟩ | ⟨h0, old, hl, hpay, _⟩
     · exact Or.inl ⟨h0, by rw [e]⟩
@@ -828,7 +926,7 @@ example : (run 10 RState.init exampleHistory2).map
 with an existing assembly, a request passing to the second stage, a kept rendering as `Source`,
 an oversize final block, a completed transfer, a raising handler with an older rendering kept -/
 example : Accepted 10 RState.init (rq 0 (put epA (some ⟨0, true, 0⟩) none (List.replicate 16 65)) (ok []))
-    ⟨0, true, 0⟩ := Or.inl rfl
+    ⟨0, true, 0⟩ := Or.inl ⟨rfl, by decide⟩
 example : ∃ asm, alookup (blockKey (put epA none none []))
       (spoolAt 10 (stateAfter 10 RState.init (exampleHistory.take 2)) (exampleHistory[2]'(by decide))).items
       = some asm ∧ isRequestCode asm.code = true ∧ (⟨1, false, 0⟩ : Blk).start = asm.payload.length :=
@@ -867,6 +965,82 @@ example : Passes 10 (stateAfter 10 RState.init (exampleHistory2.take 6)) (exampl
   ⟨⟨rfl, by decide⟩, by decide, rfl, by decide⟩
 example : latest (blockKey (put epA none none [])) (renderLog 10 RState.init (exampleHistory2.take 7))
     = some (.error 132) := by decide
+
+/-- block 0 is size-checked, and the final block's Block2 option governs: block 0 with the more
+flag and 32 bytes at a 16-byte size → 4.00, block 2 then finds no assembly → 4.08; a short block 0
+(5 bytes, more flag) → 4.00; a single final block 0 of 17 bytes → 4.00, of 16 bytes → handler.
+Then a 40-byte rendering is kept (step 5), a new upload starts with a block 0 that carries
+Block2 1/0/0 (2.31), and its final block without Block2 reaches the handler with the new 19-byte
+body and is answered with the whole new 3-byte rendering — not with block 1 of the kept one. -/
+private def exampleHistory3 : List In :=
+  [ rq 0 (put epA (some ⟨0, true, 0⟩) none (List.replicate 32 65)) (ok []),
+    rq 1 (put epA (some ⟨2, false, 0⟩) none [1, 2, 3, 4, 5]) (ok []),
+    rq 2 (put epA (some ⟨0, true, 0⟩) none [1, 2, 3, 4, 5]) (ok []),
+    rq 3 (put epA (some ⟨0, false, 0⟩) none (List.replicate 17 65)) (ok []),
+    rq 4 (put epA (some ⟨0, false, 0⟩) none (List.replicate 16 65)) (ok []),
+    rq 5 (put epA none (some ⟨0, false, 0⟩) []) (ok (List.range 40)),
+    rq 6 (put epA (some ⟨0, true, 0⟩) (some ⟨1, false, 0⟩) (List.replicate 16 78)) (ok [7, 7, 7]),
+    rq 7 (put epA (some ⟨1, false, 0⟩) none [78, 78, 78]) (ok [7, 7, 7]),
+    rq 8 (put epA none (some ⟨1, false, 0⟩) []) (ok [9]) ]
+
+example : (run 10 RState.init exampleHistory3).map
+      (fun o => (o.resp.code, o.resp.block1, o.resp.block2, o.resp.payload.length,
+                 o.seen.map (·.payload.length))) =
+    [ (128, none, none, 0, none),
+      (136, none, none, 0, none),
+      (128, none, none, 0, none),
+      (128, none, none, 0, none),
+      (69, some ⟨0, false, 0⟩, none, 0, some 16),
+      (69, none, some ⟨0, true, 0⟩, 16, some 0),
+      (95, some ⟨0, true, 0⟩, none, 0, none),
+      (69, some ⟨1, false, 0⟩, none, 3, some 19),
+      (136, none, none, 0, none) ] := by decide
+/-- the Block2 option of the requests the handler saw at steps 4, 5 and 7: the final block's own -/
+example : (run 10 RState.init exampleHistory3).filterMap (fun o => o.seen.map (·.block2)) =
+    [none, some ⟨0, false, 0⟩, none] := by decide
+example : TimeOrdered 0 exampleHistory3 := by simp [exampleHistory3, TimeOrdered, rq]
+
+/-- `C06_block0_size_contradiction_4_00`: both kinds of contradiction occur (steps 0 and 3) -/
+example : (⟨0, true, 0⟩ : Blk).more = true ∧ (List.replicate 32 65).length ≠ (⟨0, true, 0⟩ : Blk).size ∧
+    ¬ ((⟨0, true, 0⟩ : Blk).szx = 7 ∧ (List.replicate 32 65).length % (⟨0, true, 0⟩ : Blk).size = 0) := by
+  decide
+example : (⟨0, false, 0⟩ : Blk).more = false ∧ (⟨0, false, 0⟩ : Blk).szx ≠ 7 ∧
+    (⟨0, false, 0⟩ : Blk).size < (List.replicate 17 65).length := by decide
+/-- `C06_completed_upload_reaches_handler` / `C06_second_stage_has_own_block_options`: at step 7 a
+rendering is kept under the key, the stored block 0 carries Block2 1/0/0, the final block none -/
+example : Accepted 10 (stateAfter 10 RState.init (exampleHistory3.take 7)) (exampleHistory3[7]'(by decide))
+    ⟨1, false, 0⟩ ∧
+    (alookup (blockKey (put epA none none []))
+      (cacheAt 10 (stateAfter 10 RState.init (exampleHistory3.take 7)) (exampleHistory3[7]'(by decide))).items).isSome
+      = true ∧
+    ((alookup (blockKey (put epA none none []))
+      (spoolAt 10 (stateAfter 10 RState.init (exampleHistory3.take 7)) (exampleHistory3[7]'(by decide))).items).map
+        (·.block2)) = some (some ⟨1, false, 0⟩) :=
+  ⟨Or.inr ⟨put epA (some ⟨0, true, 0⟩) (some ⟨1, false, 0⟩) (List.replicate 16 78), by decide, by decide,
+    by decide, by decide⟩, by decide, by decide⟩
+/-- `C06_handler_sees_blocks_0_to_n`: the handler is invoked with a reassembled body at step 2 of
+the first history, and a two-block assembly with uniform size exponent exists -/
+example : ((step 10 (stateAfter 10 RState.init (exampleHistory.take 2)) (exampleHistory[2]'(by decide))).2.seen.map
+    (·.payload.length)) = some 19 := by decide
+example : Assembly (blockKey (put epA none none []))
+      [put epA (some ⟨0, true, 0⟩) none (List.replicate 16 65), put epA (some ⟨1, false, 0⟩) none [1, 2, 3]]
+      (List.replicate 16 65 ++ [1, 2, 3]) ∧
+    UniformSzx 0 [put epA (some ⟨0, true, 0⟩) none (List.replicate 16 65),
+                  put epA (some ⟨1, false, 0⟩) none [1, 2, 3]] :=
+  ⟨Assembly.next (Assembly.first (by decide) rfl rfl (by decide)) (by decide) rfl (by decide) (by decide)
+      (by decide),
+   by intro m hm b hb; simp at hm; rcases hm with e | e <;> (subst e; simp [put] at hb; subst hb; rfl)⟩
+/-- `C06_observable_entry`: FETCH with Observe: 0 — plain when it carries Block1 or asks for a later
+block, the observation branch otherwise; no Observe option: plain -/
+example : obsEntry { (put epA (some ⟨0, true, 0⟩) none []) with code := 5, opts := [(6, []), (11, [97])] }
+    = .plain := by decide
+example : obsEntry { (put epA none (some ⟨1, false, 0⟩) []) with code := 5, opts := [(6, []), (11, [97])] }
+    = .plain := by decide
+example : obsEntry { (put epA none (some ⟨0, false, 0⟩) []) with code := 5, opts := [(6, []), (11, [97])] }
+    = .observe := by decide
+example : obsEntry { (put epA none none []) with code := 5, opts := [(6, [1]), (11, [97])] } = .plain := by
+  decide
+example : obsEntry (put epA none none []) = .plain := by decide
 
 /-- TimeoutDict: set at 0 with T = 10, other key accessed at 5; present at 9, absent at 20 -/
 example : ((TD.runOps 10 (TD.empty : TD Nat Nat) [(0, .set 1 7), (5, .set 2 8)]).advance 10 9).present 1
